@@ -185,7 +185,7 @@ def run_case(case, ctx):
 				except Exception:
 					pass
 				raise Violation('bad_database_loaded:' + neg, f'variant {neg}: load_from_dir returned a database instead of raising', case)
-			return {'nontrivial': True, 'classes': classes}
+			return {'nontrivial': True, 'classes': classes, 'expects_rejection': True}
 		if err is not None:
 			raise Violation('load_failed', f'load_from_dir raised {type(err).__name__}: {err}', case)
 		try:
